@@ -1,8 +1,6 @@
 /-
-C16 — the finite tables: the model's precedences/operator strings agree with the table
-regenerated from lnodes.py, and the formatter's parenthesisation rule is faithful to the C and
-Python grammar levels for every (parent class, child class, operand position).
-Everything here is decided completely over `Generated.Precedence`.
+C16 — definitions for the finite-table theorems of FfcxProofs/C16.lean: the model's class table,
+grammar levels (DESIGN Appendix E), the local faithfulness predicates.
 -/
 import FfcxModel.LNodes.ParsePy
 
@@ -30,23 +28,10 @@ def modelRows : List (String × Nat × String) := [
 def rowMatches (r : String × Nat × String) (c : ClassRow) : Bool :=
   c.name == r.1 && c.prec == r.2.1 && c.op == r.2.2
 
-/-- `Expr.prec` / `BinOp.prec` / `opStr` of the model equal the regenerated table, every
-    expression class of lnodes.py is modelled, and the operator tokens spell the `op` strings. -/
-theorem prec_table_agrees :
-    (∀ r ∈ modelRows, ∃ c ∈ classes, rowMatches r c = true)
-    ∧ (∀ c ∈ classes, c.kind ≠ "assign" → ∃ r ∈ modelRows, rowMatches r c = true)
-    ∧ (∀ op : BinOp, (opTok op).text = op.opStr.toList) := by
-  refine ⟨by decide, by decide, ?_⟩
-  intro op; cases op <;> decide
-
 /-- on the handler names that occur as keys, each `math_table[dtype]` is injective and no image
     collides with another key that passes through unchanged: the C name determines the function -/
 def tableInjective (tbl : List (String × String)) : Bool :=
   tbl.all (fun a => tbl.all (fun b => a.2 != b.2 || a.1 == b.1))
-
-theorem math_names_injective :
-    (∀ t ∈ mathTable, tableInjective t.2 = true) ∧ tableInjective numbaFunctionMap = true := by
-  decide
 
 /-! ## grammar levels (DESIGN Appendix E) -/
 
@@ -130,29 +115,5 @@ def isCondClass (n : String) : Bool :=
 def wtPair (p c : ClassRow) (pos : Nat) : Bool :=
   let wantsCond := p.name == "Not" || p.name == "And" || p.name == "Or" || (p.name == "Conditional" && pos == 0)
   if c.name == "Symbol" then true else isCondClass c.name == wantsCond
-
-/-- C: for EVERY (parent class, child class, operand position) — no typing needed — the rule
-    "parenthesise iff child.precedence ≥ parent.precedence" parenthesises whenever the child's
-    grammar level does not bind tight enough at that position; except for the child `MultiIndex`. -/
-theorem local_faithful :
-    ∀ p ∈ parentRows, ∀ c ∈ childRows, c.name ≠ "MultiIndex" → ∀ pos ∈ positions p,
-      cFaithful p c pos = true := by decide
-
-/-- `MultiIndex` has LNodes precedence 0 but is printed as its global index (a Sum):
-    `Mul(x, MultiIndex([i,j],[3,4]))` prints `x * 4 * i + j` -/
-theorem local_faithful_multiindex_counterexample :
-    ∃ p ∈ parentRows, ∃ c ∈ childRows, ∃ pos ∈ positions p, c.name = "MultiIndex" ∧ cFaithful p c pos = false :=
-  ⟨⟨"Mul", 4, "*", "bin"⟩, by decide, ⟨"MultiIndex", 0, "", "other"⟩, by decide, 1, by decide, rfl, by decide⟩
-
-/-- Python: the same on well-typed pairs -/
-theorem local_faithful_py :
-    ∀ p ∈ parentRows, ∀ c ∈ childRows, c.name ≠ "MultiIndex" → ∀ pos ∈ positions p,
-      wtPair p c pos = true → pyFaithful p c pos = true := by decide
-
-/-- …and without well-typedness it fails: `EQ(LT(a,b), c)` prints `a < b == c`, one chained
-    comparison in Python (DESIGN F16) -/
-theorem local_faithful_py_chain_counterexample :
-    ∃ p ∈ parentRows, ∃ c ∈ childRows, ∃ pos ∈ positions p, pyFaithful p c pos = false :=
-  ⟨⟨"EQ", 8, "==", "bin"⟩, by decide, ⟨"LT", 7, "<", "bin"⟩, by decide, 0, by decide, by decide⟩
 
 end Ffcx.LNodes.Fmt
